@@ -40,16 +40,16 @@ Section RunToBlock.
              end
     end.
 
-  Definition arrive (n : nat) (s : St) (pn : list nat) (t : nat) : St * list nat :=
+  Definition arrive (fuel n : nat) (s : St) (pn : list nat) (t : nat) : St * list nat :=
     match start s t with
     | None => (s, pn)
-    | Some (s', p) => quiesce 400 n s' (if p then bump t pn else pn)
+    | Some (s', p) => quiesce fuel n s' (if p then bump t pn else pn)
     end.
 
-  Fixpoint replay (n : nat) (s : St) (pn : list nat) (order : list nat) : list (list Z) :=
+  Fixpoint replay (fuel n : nat) (s : St) (pn : list nat) (order : list nat) : list (list Z) :=
     match order with
     | [] => []
-    | t :: r => let (s', pn') := arrive n s pn t in obs s' pn' :: replay n s' pn' r
+    | t :: r => let (s', pn') := arrive fuel n s pn t in obs s' pn' :: replay fuel n s' pn' r
     end.
 End RunToBlock.
 
@@ -89,7 +89,7 @@ Definition s_obs (scripts : list (list act)) (s : sys) (pn : list nat) : list Z 
 Record scase := mkS { s_scripts : list (list act); s_order : list nat; s_seen : list (list Z) }.
 Definition s_agree (c : scase) : bool :=
   let n := length (s_scripts c) in
-  zll_eqb (replay sys s_cont s_start (s_obs (s_scripts c)) n (init (s_scripts c)) (repeat 0 n) (s_order c)) (s_seen c).
+  zll_eqb (replay sys s_cont s_start (s_obs (s_scripts c)) 400 n (init (s_scripts c)) (repeat 0 n) (s_order c)) (s_seen c).
 
 (* ---------- DAGMutex ---------- *)
 Definition d_inside (s : dag) (t : nat) : bool :=
@@ -114,7 +114,7 @@ Definition d_obs (nent : nat) (scripts : list (list dop)) (s : dag) (pn : list n
 Record dcase := mkD { d_nent : nat; d_scripts : list (list dop); d_order : list nat; d_seen : list (list Z) }.
 Definition d_agree (c : dcase) : bool :=
   let n := length (d_scripts c) in
-  zll_eqb (replay dag d_cont d_start (d_obs (d_nent c) (d_scripts c)) n (dinit (d_scripts c)) (repeat 0 n) (d_order c)) (d_seen c).
+  zll_eqb (replay dag d_cont d_start (d_obs (d_nent c) (d_scripts c)) 400 n (dinit (d_scripts c)) (repeat 0 n) (d_order c)) (d_seen c).
 
 (* ---------- Counter ---------- *)
 Definition c_cont' (s : csys) (t : nat) : option (csys * bool) :=
@@ -128,7 +128,7 @@ Definition c_obs (scripts : list (list cop)) (s : csys) (pn : list nat) : list Z
 Record ccase := mkC { c_scripts : list (list cop); c_order : list nat; c_seen : list (list Z) }.
 Definition c_agree (c : ccase) : bool :=
   let n := length (c_scripts c) in
-  zll_eqb (replay csys c_cont' c_start' (c_obs (c_scripts c)) n (cinit (c_scripts c)) (repeat 0 n) (c_order c)) (c_seen c).
+  zll_eqb (replay csys c_cont' c_start' (c_obs (c_scripts c)) 400 n (cinit (c_scripts c)) (repeat 0 n) (c_order c)) (c_seen c).
 
 (* ---------- Stack ---------- *)
 Definition k_cont' (s : ksys) (t : nat) : option (ksys * bool) :=
@@ -145,7 +145,7 @@ Definition k_obs (scripts : list (list kop)) (s : ksys) (pn : list nat) : list Z
 Record kcase := mkK { k_scripts : list (list kop); k_order : list nat; k_seen : list (list Z) }.
 Definition k_agree (c : kcase) : bool :=
   let n := length (k_scripts c) in
-  zll_eqb (replay ksys k_cont' k_start' (k_obs (k_scripts c)) n (kinit (k_scripts c)) (repeat 0 n) (k_order c)) (k_seen c).
+  zll_eqb (replay ksys k_cont' k_start' (k_obs (k_scripts c)) 400 n (kinit (k_scripts c)) (repeat 0 n) (k_order c)) (k_seen c).
 
 (* ---------- one cases file holds all four kinds ---------- *)
 Inductive case := CS (c : scase) | CD (c : dcase) | CC (c : ccase) | CK (c : kcase).
@@ -162,13 +162,13 @@ Definition mismatches (cs : list case) : list nat := mismatches_from 0 cs.
 (* what the model says for a case (for debugging a mismatch) *)
 Definition s_model (c : scase) : list (list Z) :=
   let n := length (s_scripts c) in
-  replay sys s_cont s_start (s_obs (s_scripts c)) n (init (s_scripts c)) (repeat 0 n) (s_order c).
+  replay sys s_cont s_start (s_obs (s_scripts c)) 400 n (init (s_scripts c)) (repeat 0 n) (s_order c).
 Definition d_model (c : dcase) : list (list Z) :=
   let n := length (d_scripts c) in
-  replay dag d_cont d_start (d_obs (d_nent c) (d_scripts c)) n (dinit (d_scripts c)) (repeat 0 n) (d_order c).
+  replay dag d_cont d_start (d_obs (d_nent c) (d_scripts c)) 400 n (dinit (d_scripts c)) (repeat 0 n) (d_order c).
 Definition c_model (c : ccase) : list (list Z) :=
   let n := length (c_scripts c) in
-  replay csys c_cont' c_start' (c_obs (c_scripts c)) n (cinit (c_scripts c)) (repeat 0 n) (c_order c).
+  replay csys c_cont' c_start' (c_obs (c_scripts c)) 400 n (cinit (c_scripts c)) (repeat 0 n) (c_order c).
 Definition k_model (c : kcase) : list (list Z) :=
   let n := length (k_scripts c) in
-  replay ksys k_cont' k_start' (k_obs (k_scripts c)) n (kinit (k_scripts c)) (repeat 0 n) (k_order c).
+  replay ksys k_cont' k_start' (k_obs (k_scripts c)) 400 n (kinit (k_scripts c)) (repeat 0 n) (k_order c).
